@@ -50,13 +50,13 @@ func init() {
 			slot, cmd, err := propose.DecodePayload(data)
 			return payloadVal{slot, cmd}, err == nil
 		},
-		payload: func(v any, hasV bool, data []byte, res any, resOK bool) string {
+		payload: func(v any, hasV bool, data []byte, res any, resOK, same bool) string {
 			pr := func(x any) string { p := x.(payloadVal); return vh.Pair(vh.N(uint64(p.HashSlot)), vh.Hex(p.Command)) }
 			vt := vh.None()
 			if hasV {
 				vt = vh.Some(pr(v))
 			}
-			return vh.App("PProposePayload", vt, resTerm(resOK, func() string { return pr(res) }))
+			return vh.App("PProposePayload", vt, resTerm(resOK && !same, func() string { return pr(res) }))
 		},
 		rawHint: func(r *rand.Rand) []byte { return []byte{byte(vh.Pick(r, 1, 1, 1, 0, 2))} },
 	})
@@ -88,7 +88,7 @@ func init() {
 			req, err := propose.DecodeForwardRequest(data)
 			return req, err == nil
 		},
-		payload: func(v any, hasV bool, data []byte, res any, resOK bool) string {
+		payload: func(v any, hasV bool, data []byte, res any, resOK, same bool) string {
 			pr := func(x any) string {
 				q := x.(propose.ForwardRequest)
 				return vh.App("ForwardRequest", vh.N(uint64(q.SlotID)), vh.N(uint64(q.HashSlot)), vh.N(uint64(q.Class)), vh.B(q.WantResult), vh.Hex(q.Payload))
@@ -97,7 +97,7 @@ func init() {
 			if hasV {
 				vt = vh.Some(pr(v))
 			}
-			return vh.App("PForward", vt, resTerm(resOK, func() string { return pr(res) }))
+			return vh.App("PForward", vt, resTerm(resOK && !same, func() string { return pr(res) }))
 		},
 		// well-formed legacy (v1, v2) and current frames, so that the old layouts are decoded too
 		rawHint: func(r *rand.Rand) []byte {
@@ -138,7 +138,7 @@ func init() {
 			p, err := clusternet.CheckHeader(data, want.Version, want.Kind)
 			return headerVal{want.Version, want.Kind, p}, err == nil
 		},
-		payload: func(v any, hasV bool, data []byte, res any, resOK bool) string {
+		payload: func(v any, hasV bool, data []byte, res any, resOK, same bool) string {
 			want := headerVal{Version: 1, Kind: 1}
 			if v != nil {
 				want = v.(headerVal)
@@ -148,7 +148,7 @@ func init() {
 				vt = vh.Some(vh.Hex(want.Payload))
 			}
 			return vh.App("PNetHeader", vh.N(uint64(want.Version)), vh.N(uint64(want.Kind)), vt,
-				resTerm(resOK, func() string { return vh.Hex(res.(headerVal).Payload) }))
+				resTerm(resOK && !same, func() string { return vh.Hex(res.(headerVal).Payload) }))
 		},
 		rawHint: func(r *rand.Rand) []byte { return []byte{byte(r.IntN(3)), byte(r.IntN(3))} },
 	})
